@@ -1,4 +1,5 @@
 import Witverif.Proofs.Task
+import Witverif.Proofs.ExecTasks
 /-!
 # C22 — the export task executor answers callbacks consistently and frees tasks once
 
@@ -123,6 +124,16 @@ theorem spawned_finish_before_exit (hs : step s l = .ok s' evs) (hx : Exits s s'
   rcases exit_only_if_no_work hs hx with h | ⟨h1, h2, _⟩
   · exact absurd h hc
   · exact ⟨h1, h2⟩
+
+/-- … and `Tasks::poll_next` — both variants: spawn.rs over `FuturesUnordered` (any number of spawned
+futures, any wake pattern) and spawn_disabled.rs, as modelled in `Async/ExecScript.lean` and compared
+with the real runtime trace by trace — answers `Ready` only when no future of the task is left and (spawn
+variant) nothing spawned is still waiting to be adopted.  `FuturesUnordered` itself is an assumption:
+its model follows futures-util 0.3 (FIFO ready queue, `Ready(None)` only when empty). -/
+theorem tasks_ready_iff_empty {sys sys' : Exec.Sys} {t : Nat} {empty : Bool}
+    (h : Exec.tasksPollNext sys t = (sys', true, empty)) :
+    Exec.NoFutures sys' t ∧ (sys.build.spawn = true → sys'.spawned = []) :=
+  Exec.tasksPollNext_ready h
 
 /-- **task_dropped_once.**  The destructor of the task state runs at most once, has run exactly once when
 the task is gone, and nothing is ever run for a task that is gone (no later callback, poll or drop):
